@@ -3,6 +3,7 @@ package engine
 import (
 	"fmt"
 	"go/ast"
+	"go/token"
 	"go/types"
 	"sort"
 	"strings"
@@ -620,7 +621,12 @@ func (c *Ctx) gateFlag(ref SiteRef, rng string) (types.Object, *ast.RangeStmt, s
 		if e.Kind != EvCond || !loopPrefix(e.Loops, site.Loops) || e.Stack != site.Stack {
 			continue
 		}
-		id, ok := ast.Unparen(e.CondExpr).(*ast.Ident)
+		// `if flag { site }` and `if !flag { return }; site` put the same literal on the path: flag == true
+		ce := ast.Unparen(e.CondExpr)
+		if u, isNot := ce.(*ast.UnaryExpr); isNot && u.Op == token.NOT {
+			ce = ast.Unparen(u.X)
+		}
+		id, ok := ce.(*ast.Ident)
 		if !ok || e.Lit.Mask != mEQ || e.Lit.R != "true" {
 			continue
 		}
